@@ -4,6 +4,7 @@ InvalidSignature."""
 import z3
 from pyvc import scn, engine as E
 from pyvc.runner import Scenario
+from pyvc.scn import cat, be
 
 B = E.BYTES
 ALGS = {
@@ -152,3 +153,109 @@ def packet_verify():
 
 def scenarios():
     return [alg_verify(c) for c in ALGS] + [pubkey_numbers('RSAPub'), pubkey_numbers('DSAPub'), packet_verify()]
+
+
+def alg_sign(clsname):
+    """<alg>Priv.sign: what is handed to the external signer (RFC 4880 5.2.2 / 13.1.3, RFC 6637, EdDSA pre-hash), result returned unchanged"""
+    label = 'C02/fields.%s.sign' % clsname
+    cls = 'pgpy.packet.fields.' + clsname
+
+    def gen(repo):
+        r = scn.Run(repo, cls, 'sign', label)
+        ex, st = r.ex, r.st
+        DATA, OUT = z3.Const('HASHDATA', B), z3.Const('SIGNER_OUTPUT', B)
+        halg = E.VExt('hashes.SHA256', ())
+        sk = E.VExt('theprivatekey', ())
+        r.hook(cls, '__privkey__', scn.mconst(sk))
+
+        def ext_sign(ex, st, o, a):
+            st.ghost['ext_args'] = a
+            return [(st, E.VBytes(OUT))]
+        r.hook('ext:theprivatekey', 'sign', ext_sign)
+        for pi, (s, v) in enumerate(r.call(E.VObj(cls, 'km'), [E.VBytes(DATA), halg])):
+            if isinstance(v, E.Raise):
+                r.oblige(s, 'safety(%s)/p%d' % (v.exc.split(':')[0], pi), z3.BoolVal(False), v.where)
+                continue
+            a = s.ghost.get('ext_args')
+            r.oblige(s, 'external-signer-of-this-key-called-once/p%d' % pi, z3.BoolVal(a is not None))
+            if a is None:
+                continue
+            r.oblige(s, 'returns-the-signer-output-unchanged/p%d' % pi, ex.seq(v, s) == OUT)
+            if clsname == 'RSAPriv':
+                r.oblige(s, 'signs-the-hash-data,pkcs1v15,hash-of-the-signature/p%d' % pi,
+                         z3.And(ex.seq(a[0], s) == DATA, z3.BoolVal(isinstance(a[1], E.VExt) and a[1].name == 'padding.PKCS1v15' and a[2] is halg)))
+            elif clsname == 'DSAPriv':
+                r.oblige(s, 'signs-the-hash-data-with-the-hash-of-the-signature/p%d' % pi, z3.And(ex.seq(a[0], s) == DATA, z3.BoolVal(a[1] is halg)))
+            elif clsname == 'ECDSAPriv':
+                r.oblige(s, 'signs-the-hash-data,ecdsa-with-the-hash-of-the-signature/p%d' % pi,
+                         z3.And(ex.seq(a[0], s) == DATA, z3.BoolVal(isinstance(a[1], E.VExt) and a[1].name == 'ec.ECDSA' and a[1].args[0] is halg)))
+            else:
+                hashed = s.ghost.get('hashed', [])
+                shape = len(hashed) == 1 and hashed[0][0][0] == 'param' and hashed[0][0][1] is halg
+                r.oblige(s, 'one-prehash-with-the-hash-of-the-signature/p%d' % pi, z3.BoolVal(bool(shape)))
+                if shape:
+                    r.oblige(s, 'prehash-input-is-the-hash-data-and-the-digest-is-signed/p%d' % pi, z3.And(hashed[0][1] == DATA, ex.seq(a[0], s) == hashed[0][2]))
+        return r.result()
+    return Scenario(label, cls + '.sign', gen, props=('C02', 'C01'))
+
+
+def sig_fields(kind):
+    """signature integers between the signer/verifier format and the packet fields: RSA (one MPI), EdDSA (R, S of 32 octets each)"""
+    label = 'C02/fields.%sSignature.from_signer+__sig__' % kind
+    cls = 'pgpy.packet.fields.%sSignature' % kind
+
+    def gen(repo):
+        obls, funcs, paths = [], [], 0
+        r = scn.Run(repo, cls, 'from_signer', label + '[from_signer]')
+        ex, st = r.ex, r.st
+        OUT = z3.Const('SIGNER_OUTPUT', B)
+        n = 64 if kind == 'EdDSA' else 4
+        st.pc += [z3.Length(OUT) == n]
+        st.facts += [z3.And(OUT[i] >= 0, OUT[i] < 256) for i in range(n)]
+        r.hook('pgpy.packet.types.MPI', '__call__', lambda ex, st, c, a: [(st, E.VInt(ex.as_int(a[0]), enum='pgpy.packet.types.MPI'))])
+        val = lambda lo, k: sum([OUT[lo + j] * 256 ** (k - 1 - j) for j in range(k)], z3.IntVal(0))
+        for pi, (s, v) in enumerate(r.call(E.VObj(cls, 'sig'), [E.VBytes(OUT)])):
+            paths += 1
+            if isinstance(v, E.Raise):
+                r.oblige(s, 'safety(%s)/p%d' % (v.exc.split(':')[0], pi), z3.BoolVal(False), v.where)
+                continue
+            if kind == 'EdDSA':
+                r.oblige(s, 'R-is-the-first-half,S-the-second-half-of-the-signer-output/p%d' % pi,
+                         z3.And(ex.as_int(s.heap.get(('sig', 'r'))) == val(0, 32), ex.as_int(s.heap.get(('sig', 's'))) == val(32, 32)))
+            else:
+                r.oblige(s, 'the-integer-is-the-signer-output-read-big-endian/p%d' % pi, ex.as_int(s.heap.get(('sig', 'md_mod_n'))) == val(0, n))
+        res = r.result()
+        obls += res['obligations']
+        funcs += res['funcs']
+        if kind == 'EdDSA':
+            r2 = scn.Run(repo, cls, '__sig__', label + '[__sig__]')
+            ex, st = r2.ex, r2.st
+            R, S = z3.Ints('R S')
+            st.pc += [R >= 0, S >= 0, R < 2 ** 256, S < 2 ** 256]
+            r2.set('sig', 'r', E.VInt(R, enum='pgpy.packet.types.MPI'))
+            r2.set('sig', 's', E.VInt(S, enum='pgpy.packet.types.MPI'))
+            ex.bl_extra = (256,)
+            ED = E.VExt('OID.Ed25519', ())
+            r2.hook('pgpy.constants.EllipticCurveOID', 'Ed25519', scn.const(ED))
+            h = lambda ex, st, o, a: [(st, E.VInt(256))]          # curve table (pgpy.constants): Ed25519 has a 256-bit field
+            h.is_method = False
+            ex.hooks[('ext:OID.Ed25519', 'key_size')] = h
+            for pi, (s, v) in enumerate(r2.call(E.VObj(cls, 'sig'), [])):
+                paths += 1
+                if isinstance(v, E.Raise):
+                    r2.oblige(s, 'safety(%s)/p%d' % (v.exc.split(':')[0], pi), z3.BoolVal(False), v.where)
+                    continue
+                # leading zero octets of R and S are kept: both on exactly 32 octets (the verifier wants 64 octets)
+                r2.oblige(s, 'verifier-format:R-and-S-each-on-exactly-32-octets/p%d' % pi, scn.same_octets(ex.seq(v, s), cat(be(R, 32), be(S, 32))))
+            res2 = r2.result()
+            obls += res2['obligations']
+            funcs += res2['funcs']
+        return {'obligations': obls, 'funcs': funcs, 'paths': paths}
+    return Scenario(label, cls, gen, props=('C02', 'C01'))
+
+
+_base_scn_sa = scenarios
+
+
+def scenarios():
+    return _base_scn_sa() + [alg_sign(c) for c in ('RSAPriv', 'DSAPriv', 'ECDSAPriv', 'EdDSAPriv')] + [sig_fields('RSA'), sig_fields('EdDSA')]
